@@ -1084,4 +1084,64 @@ theorem triple_and_inv {α : Type} {x : M α} {P I : World → Prop} {Q : α →
   have a2 := adequacy h2 w hw.2
   split <;> simp_all
 
+/-- one attempt in call mode: the loop goes on with the invariant, or the run has succeeded -/
+abbrev attemptPost (cfg : Cfg) (n : Nat) : PostCond (Option Nat) (.except Exn (.arg World .pure)) :=
+  post⟨fun r w => ⌜(r = none → Rel cfg n (view cfg w)) ∧ (r ≠ none → Succ n (view cfg w))⌝,
+       fun e w => ⌜Exc cfg e w⌝⟩
+
+theorem rel_of_slept (cfg : Cfg) (n : Nat) (v : View) (h : Slept cfg n v) : Rel cfg n v := by
+  simp only [Slept, Rel, CntOK] at *
+  simp_all
+  omega
+
+@[simp] theorem isRaise_iff (d : Decision) : d.isRaise = true ↔ d = .raise := by
+  cases d <;> simp [Decision.isRaise]
+
+/-- a poll before any strategy was asked -/
+theorem checkAbort_keep (cfg : Cfg) (tl : Bool) (u : View) (hs : u.stop = none) (hb : u.mon.bad = false)
+    (hg : GrantInv cfg u.mon) (h1 : u.mon.strat = false) (h2 : u.mon.pollFalse = false) (a : Nat) :
+    ⦃fun w => ⌜view cfg w = u⌝⦄ checkAbort cfg tl a
+    ⦃post⟨fun _ w => ⌜view cfg w = u⌝, fun e w => ⌜Exc cfg e w⌝⟩⦄ := by
+  have h := checkAbort_spec cfg tl u hs hb hg a
+  rw [pollV_noStrat cfg u h1 h2] at h
+  exact h
+
+theorem decided2_cases (cfg : Cfg) (n : Nat) (d : Decision) (v : View) (h : Decided cfg n d v)
+    (hd : d = .raise) : Decided2 cfg n d v := by
+  subst hd; exact h
+
+macro_rules | `(tactic| c03_phase) => `(tactic|
+  simp_all +zetaDelta [pollV_noStrat, Fin, Decided2, Ready, Slept, Decided, GrantInv, PreStop, plainEv, isBreakerEv,
+    Strat, Gr, Refd, Stopped, isFailure, Succ, Core, NoStrat, CntOK, Rel, ClsA, ClsB, ClsC, stopCond])
+
+/-- the decision after the poll that follows it (no poll after "raise") -/
+theorem decided2_of (cfg : Cfg) (n : Nat) (d : Decision) (v v' : View) (h : Decided cfg n d v)
+    (h1 : d = .raise → v' = v) (h2 : d ≠ .raise → v' = pollV cfg v) : Decided2 cfg n d v' := by
+  cases d with
+  | raise => rw [h1 rfl]; exact h
+  | retry s c => rw [h2 (by simp)]; exact decided2_of_poll cfg n s c v h
+
+theorem callExceptionPath_core (cfg : Cfg) (n : Nat) (u : View) (e : Exn) (hc : Core cfg n u) (hn : NoStrat u)
+    (hk : CntOK u) (hcl : u.mon.classified = false) (hd : u.mon.done = false)
+    (hex : e.isExhausted = false) :
+    ⦃fun w => ⌜view cfg w = u⌝⦄ callExceptionPath cfg n e
+    ⦃post⟨fun r w => ⌜(r = none → Rel cfg n (view cfg w)) ∧ (r ≠ none → Succ n (view cfg w))⌝,
+          fun e' w => ⌜raisedBy isOp w.trace e = true → Exc cfg e' w⌝⟩⦄ := by
+  have h1 := fun u hs hb hg => checkAbort_spec cfg false u hs hb hg n
+  have h2 := fun u hc hn hk hcl hd => handleException_spec cfg false n u hc hn hk hcl hd e
+  have h3 := fun u d hd cls => failureOutcome_spec cfg false n u d hd cls (some e) none (some .exception)
+  have h4 := fun v hok hb hg o => callAttemptEndFromOutcome_v cfg v hok hb hg n o
+  have h5 := fun u o rs hF => deliverCall_exn_spec cfg n u o rs e default hF hex
+  mvcgen [callExceptionPath, getRS, modifyAS, h1, h2, h3, h4, h5]
+  all_goals (clear h1 h2 h3 h4 h5)
+  c03_chain
+  all_goals first
+    | exact (fin_basic _ _ _ _ (by assumption)).1
+    | exact (fin_basic _ _ _ _ (by assumption)).2.1
+    | exact (fin_basic _ _ _ _ (by assumption)).2.2.1
+    | exact ⟨fun _ => rel_of_slept _ _ _ (by assumption), fun h => absurd rfl h⟩
+    | (refine decided2_of cfg n _ _ _ (by assumption) ?_ ?_ <;> simp_all +zetaDelta; done)
+    | (cases ‹Decision› <;> c03_phase; done)
+    | skip
+
 end Redress.Props.C03
